@@ -43,7 +43,7 @@ pub fn histories(pk: Pk, tier: &str) -> Vec<Vec<Op>> {
         }
         return out;
     }
-    let budgets: Vec<usize> = if thorough { vec![1, 3, 8, 20] } else { vec![2, 7] };
+    let budgets: Vec<usize> = if thorough { vec![1, 3, 8, 20] } else { vec![1, 7] };
     for &a in &budgets {
         out.push(vec![Op::Setup, Op::Solve(a)]);
         for &b in &budgets {
@@ -71,11 +71,17 @@ pub fn cases(tier: &str) -> Vec<Case> {
     let mut out = Vec::new();
     for kit in KITS {
         let b = base_of(kit);
-        let worlds = if thorough {
-            vec![b.world_free(), b.world_named("subset0001", vec![b.obstacles[0].clone()]), b.world_named("subset1111", b.obstacles.clone())]
-        } else {
-            vec![b.world_named("subset0001", vec![b.obstacles[0].clone()])]
-        };
+        // goal-overlap: one of the two goal samples is invalid; goal-dead: every goal sample is
+        // (RRT-Connect then spends its budget re-sampling the goal root and returns early)
+        let mut worlds = vec![
+            b.world_named("subset0001", vec![b.obstacles[0].clone()]),
+            b.world_named("goal-overlap", vec![b.goal_overlap.clone()]),
+            b.world_named("goal-region-entirely-invalid", vec![b.goal_dead.clone()]),
+        ];
+        if thorough {
+            worlds.push(b.world_free());
+            worlds.push(b.world_named("subset1111", b.obstacles.clone()));
+        }
         for w in &worlds {
             for pk in Pk::ALL {
                 for &seed in &seeds {
